@@ -223,6 +223,18 @@ func (x *Exec) instrs(st *State, fr *frame, b *ssa.BasicBlock, from int, active 
 				x.block(st, fr, b.Succs[1], b, active)
 				return
 			}
+			// a condition already decided by the path condition (same literal) does not fork
+			nc := not(c)
+			for _, h := range st.pc {
+				if h == c {
+					x.block(st, fr, b.Succs[0], b, active)
+					return
+				}
+				if h == nc {
+					x.block(st, fr, b.Succs[1], b, active)
+					return
+				}
+			}
 			st2 := st.Clone()
 			st.assume(c)
 			st2.assume(not(c))
@@ -314,6 +326,13 @@ func (x *Exec) simple(st *State, fr *frame, ins ssa.Instruction) {
 	s := x.s
 	switch in := ins.(type) {
 	case *ssa.DebugRef:
+		if obj, ok := in.Object().(*types.Var); ok && !in.IsAddr {
+			if v, ok := st.regs[in.X]; ok {
+				st.names[fr.fn.String()+"."+obj.Name()] = v
+			} else if c, ok := in.X.(*ssa.Const); ok {
+				st.names[fr.fn.String()+"."+obj.Name()] = s.constVal(c)
+			}
+		}
 	case *ssa.Alloc:
 		el := in.Type().(*types.Pointer).Elem()
 		name := in.Comment
@@ -540,8 +559,7 @@ func (x *Exec) makeInterface(st *State, from, to types.Type, v Val) Val {
 			c := x.s.sentinelCode(p.Loc.Sentinel)
 			return Err{c, c}
 		}
-		id := x.s.declare(x.s.fresh("err"), "Int")
-		x.s.fact("(>= " + id + " 1000000)")
+		id := x.s.freshErrID()
 		return Err{id, id}
 	}
 	return Iface{Dyn: from, V: v}
